@@ -240,6 +240,14 @@ def run(ctx: Ctx, group: str) -> int:
                 o = L.frag_observe(d, mx, gs + [[1], [2], [64]], backing)
                 o["expected_data"] = [int(v["len"]) for v in e["pdvs"] if not v["cmd"]]
                 obs.append(o)
+        # maxima next to the length of the (real) command set itself: the 6 bytes of PDV item overhead count towards the maximum
+        probe = L.frag_observe(10, 0, [[1]], "mem")
+        cmdlen = sum(v["len"] for v in probe["pdvs"] if v["cmd"])
+        for delta in range(-3, 10):
+            o = L.frag_observe(10, cmdlen + delta, [[1], [2]], "mem")
+            o["expected_data"] = [v["len"] for v in o["pdvs"] if not v["cmd"]]
+            o["backing"] = f"mem/max=cmd{delta:+d}"
+            obs.append(o)
         # the maximum actually used by the DIMSE provider: every (own maximum, peer maximum) x role, through the real send_msg
         obs += provider_observations(thorough)
         if group == "C15":
